@@ -157,6 +157,8 @@ NOT_APPLICABLE = {
 
 # Tie by regeneration (harness/cmd/gotrans + lean/Vise/Tie): appended to the level text of the properties that have one.
 _TIE_TEXT = {
+ 'C14': "vm.opSplit, vm.instructionSplit",
+ 'C15': "vm.opSplit, vm.instructionSplit (the regenerated definitions make every run-time panic explicit: there is none)",
  'C01': "render.Sizer.Check and Menu.reset",
  'C02': "State.Next/Previous/Sides/Top/Same, Menu.reset, Sizer.Check",
  'C03': "State.Previous (IndexError on page 0), Next, Top, Same",
